@@ -363,6 +363,11 @@ class CallGraph:
                     return {("xinst", "bool")}
                 if meth == "encode":
                     return {("xinst", "bytes")}
+            # methods named like str methods on an untyped receiver (argparse values, loop variables ...)
+            if meth in _STR_RET_LIST:
+                return {("xinst", "list")}
+            if meth in ("join", "format", "lower", "upper", "strip", "lstrip", "rstrip"):
+                return {("xinst", "str")}
             if head == "builtins.super" or d == "builtins.super":
                 return {("xinst", "super")}
             return set()
